@@ -1,10 +1,10 @@
 SPECIFICATION Spec
 CONSTANTS
   Vals <- ThoroughVals
-  MaxLen = 6
-  MaxTrials = 3
+  MaxLen = 2
+  MaxTrials = 2
   MaxGens = 2
-  Fits <- TwoFits
+  Fits <- MixedFits
   Divs = {3}
 INVARIANTS SeriesLaws SeriesPermutationInvariant ExperLaws
 CHECK_DEADLOCK FALSE
